@@ -7,6 +7,7 @@ CONSTANTS
   HKeys = {"h1"}
   Buckets = {1}
   IncVals = {1}
+  RecCounts = {1}
   ReaderMode = "load_store"
 SPECIFICATION Spec
 INVARIANT IntervalOK
